@@ -91,7 +91,12 @@ type filterRecHandler struct {
 	log *[]int
 }
 
-func (h filterRecHandler) Serve(*mqtt.Message) { *h.log = append(*h.log, h.idx) }
+// (every recording handler also rewrites the topic of what it received, as a handler that strips a prefix and forwards to
+// a nested mux does: which handlers are invoked depends on the topic of the SERVED message only -- seeded change c14j)
+func (h filterRecHandler) Serve(m *mqtt.Message) {
+	*h.log = append(*h.log, h.idx)
+	m.Topic = "rewritten/by/handler"
+}
 
 func runFilter(raw json.RawMessage) interface{} {
 	var sc filterScenario
@@ -247,7 +252,7 @@ func filterMuxCheck(res *filterResult, add func(filterMismatch), gi, mi int, g *
 				err = mux.Handle(f, filterRecHandler{i + 1, &log})
 			} else {
 				idx := i + 1
-				err = mux.HandleFunc(f, func(*mqtt.Message) { log = append(log, idx) })
+				err = mux.HandleFunc(f, func(m *mqtt.Message) { log = append(log, idx); m.Topic = "rewritten/by/handler" })
 			}
 			res.Handles++
 			filterVerdict(add, m, err, mx.V[i])
